@@ -212,7 +212,7 @@ class QConstant:
         # give us a constant, even though base Jaqal does/did not
         # allow this.
         if isinstance(value, QConstant):
-            value = QConstant.value
+            value = value.value
         if not isinstance(value, (int, float)):
             raise JaqalError(f"Invalid let value {value}")
         return value
